@@ -381,11 +381,42 @@ def q6_writers(ck):
     if lan is None:
         ck.missing("Q6", "Lan writer for Move")
         return
-    seqs = {}
-    for name, body in (("lan", lan),):
-        order = [callee_name(t)[len(MOVE):] for bb, t in sorted(live_calls(body), key=lambda x: x[1]["line"]) if callee_name(t).startswith(MOVE)]
-        seqs[name] = order
-    ck.req(seqs["lan"][:3] == ["origin", "destination", "promotion"], "Q6.lan", "Lan", lan.where(), "LAN writer reads %s" % seqs["lan"])
+    # what is written, in output order: the Display arguments of the write!/println! calls, ordered by dominance of their
+    # blocks (then by argument position) - never by source position
+    def written(body):
+        tb = TermBuilder(prog, body)
+        dom = cfg.dominators(body)
+        items = []
+        for bb, t in live_calls(body, names=("core::fmt::rt::Argument::<'_>::new_display",)):
+            items.append((bb, tb.operand(t["args"][0])))
+        # stable topological order by dominance
+        out = []
+        rest = list(items)
+        while rest:
+            first = [x for x in rest if not any(y is not x and y[0] in dom.get(x[0], ()) and y[0] != x[0] for y in rest)]
+            pick = min(first or rest, key=lambda x: x[0])
+            out.append(pick)
+            rest.remove(pick)
+        return tb, out
+
+    def kind_of(body, tb, t, seen=None):
+        """origin / destination / promotion / None for a displayed term (following whole-local moves and call results)."""
+        seen = seen if seen is not None else set()
+        names = [x[1][len(MOVE):] for x in walk(t) if x[0] == "call" and x[1].startswith(MOVE)]
+        for k in ("origin", "destination", "promotion"):
+            if k in names:
+                return k
+        if t[0] == "var" and t[1] not in seen:
+            seen.add(t[1])
+            for d in tb.d.defs.get(t[1], []):
+                dt = tb.call_term(d[2]) if d[0] == "call" else tb.rvalue(d[3])
+                k = kind_of(body, tb, dt, seen)
+                if k:
+                    return k
+        return None
+    tbl, seq = written(lan)
+    kinds = [kind_of(lan, tbl, t) for bb, t in seq]
+    ck.req([k for k in kinds if k] == ["origin", "destination", "promotion"], "Q6.lan", "Lan", lan.where(), "LAN writer writes %s" % kinds)
     low = [callee_name(t) for bb, t in live_calls(lan) if callee_name(t).endswith("to_ascii_lowercase")]
     ck.req(bool(low), "Q6.lan_lowercase", "Lan", lan.where(), "LAN writer does not lower-case the promotion letter")
     # UCI bestmove writer: closure of Search::spawn that prints "bestmove"
@@ -399,9 +430,16 @@ def q6_writers(ck):
     if w is None:
         ck.fail("Q6.uci", "Search::spawn", "", "cannot find the bestmove printer")
         return
-    order = [callee_name(t)[len(MOVE):] for bb, t in sorted(live_calls(w), key=lambda x: x[1]["line"]) if callee_name(t).startswith(MOVE)]
-    tail = [x for x in order if x in ("origin", "destination", "promotion")]
-    ck.req(tail[-3:] == ["origin", "destination", "promotion"], "Q6.uci", "bestmove printer", w.where(), "the bestmove printer reads %s" % tail)
+    tbw = TermBuilder(prog, w)
+    pb = [(bb, t) for bb, t in live_calls(w, names=("std::io::stdio::_print",)) if any(
+        txt and txt.startswith("bestmove") and b2 == bb for b2, _, _, txt in printed_texts(prog, w))]
+    kinds = []
+    if pb:
+        a0 = tbw.operand(pb[0][1]["args"][0])
+        for x in walk(a0):
+            if x[0] == "call" and x[1] == "core::fmt::rt::Argument::<'_>::new_display":
+                kinds.append(kind_of(w, tbw, x[2][0]))
+    ck.req(kinds == ["origin", "destination", "promotion"], "Q6.uci", "bestmove printer", w.where(), "the bestmove printer writes %s" % kinds)
     low = [callee_name(t) for bb, t in live_calls(w) if callee_name(t).endswith("to_ascii_lowercase")]
     ck.req(bool(low), "Q6.uci_lowercase", "bestmove printer", w.where(), "the bestmove printer does not lower-case the promotion letter")
     # the book branch of `go` prints through the LAN writer
